@@ -1376,7 +1376,73 @@ def prove_C01(ctx):
     ctx.prove(["Properties/C01.v"])
 
 
+def check_transparency_rich(ctx):
+    """Implementation-side oracle for programs outside MiniPy (support/rich/*.py: parameter kinds, closures, generators,
+    classes, name mangling, with, one-line if/else in loops, comprehensions, site-sensitive builtins): standard output,
+    final module-level values and the uncaught exception of the instrumented run equal those of the original run, for
+    all hooks, every hook family, and single hooks."""
+    import runner
+
+    h, leaves, names = _hier()
+    cand = [x for x in leaves if x not in EXEC_LEVEL]
+    fam = {}
+
+    def lv(d, acc):
+        for k_, v_ in d.items():
+            if v_:
+                lv(v_, acc)
+            else:
+                acc.append(k_)
+
+    def walk(d):
+        for k_, v_ in d.items():
+            if v_:
+                a = []
+                lv(v_, a)
+                fam[k_] = sorted(set(a) - set(EXEC_LEVEL))
+                walk(v_)
+
+    walk(h)
+    rng = random.Random("rich-%d" % ctx.seed)
+    sels = [("all", cand)] + [("family:" + k_, v_) for k_, v_ in sorted(fam.items()) if v_]
+    singles = cand if not ctx.quick else rng.sample(cand, 16)
+    sels += [("single:" + x, [x]) for x in singles]
+    if not ctx.quick:
+        sels += [("subset:%d" % i, rng.sample(cand, rng.randrange(2, 20))) for i in range(40)]
+    cases = []
+    for path in sorted((VERIF / "support" / "rich").glob("*.py")):
+        src = path.read_text()
+        for name, hooks in sels:
+            cases.append({"id": "rich/%s/%s" % (path.stem, name), "files": {"main.py": src}, "entry": "main",
+                          "analyses": [{"cls": "A0", "hooks": {x: None for x in hooks}}]})
+    res = runner.run_cases(cases)
+    st = ctx.streams.setdefault("transparency_rich_programs", {"cases": 0, "disagreements": 0, "dist": {}})
+    for c, r in zip(cases, res):
+        st["cases"] += 1
+        if "harness_error" in r:
+            ctx.broken.append("harness error in %s: %s" % (c["id"], r["harness_error"][-300:]))
+            continue
+        o, i = r["orig"], r["inst"]
+        ctx.count(1, [c["id"]])
+        ctx.impl_traces += 2
+        diffs = []
+        if o["stdout"] != i["stdout"]:
+            diffs.append("stdout")
+        if o["globals"] != i["globals"]:
+            ks = sorted(k_ for k_ in set(o["globals"]) | set(i["globals"]) if o["globals"].get(k_) != i["globals"].get(k_))
+            diffs.append("globals " + ",".join(ks[:5]))
+        eo = (o["exc"] or {}).get("type"), (o["exc"] or {}).get("msg")
+        ei = (i["exc"] or {}).get("type"), (i["exc"] or {}).get("msg")
+        if eo != ei:
+            diffs.append("exception %r vs %r" % (eo, ei))
+        if diffs:
+            st["disagreements"] += 1
+            ctx.violation("C01:transparency:%s" % c["id"].split("/")[1], "instrumented run of support/rich/%s.py with hooks %s differs from the original run: %s" % (
+                c["id"].split("/")[1], c["id"].split("/", 2)[2], "; ".join(diffs)[:300]), {"case": c})
+
+
 def check_C01(ctx):
+    check_transparency_rich(ctx)
     check_e2e(ctx, "C01")
 
 
